@@ -140,3 +140,20 @@ def as_augassign(st):
             a._parent = getattr(st, "_parent", None)
             return a
     return None
+
+
+def clone(n):
+    """structural copy of an AST (fields and positions only: the parent links and cached canonical forms attached to the nodes of the
+    program model are not followed - copy.deepcopy would copy the whole module through them)"""
+    import ast
+    if isinstance(n, ast.AST):
+        new = type(n)()
+        for f in n._fields:
+            setattr(new, f, clone(getattr(n, f, None)))
+        for a in n._attributes:
+            if hasattr(n, a):
+                setattr(new, a, getattr(n, a))
+        return new
+    if isinstance(n, list):
+        return [clone(x) for x in n]
+    return n
